@@ -670,6 +670,21 @@ def main():
                 else:
                     yield (n2, d2, n1, d1, verify), "tri-intersections", tag
 
+        # outside tangency of a curved edge with a STRAIGHT edge presented at degree 2 (curvature exactly 0), tangents opposed: the compiled
+        # classification takes the sign of a curvature with sign(1, k) (two values, 0 counts as positive -> OPPOSED, the triangles only
+        # touch: []), the pure one with np.sign (three values -> TANGENT_BOTH -> ValueError 'Point type not for tangency').  Found by the
+        # source-level tie of triangle_intersection.f90 (Lemmas/ClassifyF90.fortran_python_differ_at_zero_curvature); finding F-Y.
+        w1 = [[Fr(0), Fr(1, 2), Fr(1), Fr(0), Fr(1, 2), Fr(0)], [Fr(0), Fr(0), Fr(0), Fr(1, 2), Fr(1, 2), Fr(1)]]
+        w2 = [[Fr(1), Fr(1, 2), Fr(0), Fr(3, 4), Fr(1, 4), Fr(1, 2)], [Fr(-1, 4), Fr(1, 4), Fr(-1, 4), Fr(-9, 8), Fr(-9, 8), Fr(-2)]]
+        for k, (tx, ty) in ((0, (0, 0)), (2, (3, -5)), (-2, (Fr(1, 4), Fr(7, 8)))):
+            f = Fr(2) ** k
+            a = exact_fa([[v * f + tx for v in w1[0]], [v * f + ty for v in w1[1]]])
+            b = exact_fa([[v * f + tx for v in w2[0]], [v * f + ty for v in w2[1]]])
+            tag = {"family": "outside-tangency-straight-edge", "degrees": "2-2", "position": "scale 2^%d" % k,
+                   "cls": "outside-tangency-with-zero-curvature-edge"}
+            yield (a, 2, b, 2, True), "tri-intersections", tag
+            yield (b, 2, a, 2, True), "tri-intersections", dict(tag, position="scale 2^%d, swapped" % k)
+
     # ------------------------------------------------------------------ run
     registered = set(GEN)
     found = {"%s.%s" % k for k in pairs}
